@@ -65,7 +65,7 @@ theorem core_division_by_zero (cf : Core.Config) (args : List Int) (pr : Core.CP
     (hroom : Core.pkS cf.w (Core.entryOff cf.w pr.params) pr.body ≤ Core.roomOf cf args) :
     ∃ mEnd, Exec (sphinx (Core.coreProg cf pr)) (Core.coreInit cf args pr)
       (tr ++ [Ev.flag "division_by_zero", Ev.flag "error"]) ⟨tntPc (Core.progLen cf.checked pr), mEnd⟩ :=
-  let ⟨m, h, _⟩ := Core.core_correct cf args pr hw hB hSE hwf hlen fuel env' tr .div0 hex (fun _ => hck) hroom
+  let ⟨m, h, _⟩ := Core.core_correct cf args pr hw hB hSE hwf hlen fuel env' tr .div0 hex (fun _ => hck) (fun h => by cases h) hroom
   ⟨m, h⟩
 
 end HidVerif.Props.C05
